@@ -48,3 +48,16 @@ Definition C08_npix_statement : Prop :=
   forall shape per vals minv n0 n1,
     Forall (fun n => 0 < n) shape -> fst n0 * snd n1 <= fst n1 * snd n0 ->
     fst (c08_view shape (AdjGrid per) vals minv 0 n0 0 n1) = true.
+
+(* What does hold in general (proved, any criteria lists, any adjacency): the result of
+   pruning is stable under every later prune with criteria that are no stricter - so the
+   dendrogram obtained post hoc with the stricter parameters is, like the one computed with
+   them, a fixpoint of pruning with any laxer ones. *)
+From Dendro Require Import PruneMono.
+Theorem C08_pruned_result_is_stable_under_laxer_parameters :
+  forall shape a vals minv cs_lax cs_strict cs_later,
+    weaker cs_later cs_strict ->
+    prune_struct cs_later (prune_struct cs_strict (compute shape a vals minv cs_lax)) =
+    prune_struct cs_strict (compute shape a vals minv cs_lax).
+Proof. intros. apply prune_absorbs. assumption. Qed.
+Print Assumptions C08_pruned_result_is_stable_under_laxer_parameters.
